@@ -13,6 +13,7 @@ import (
 	"path/filepath"
 	"strings"
 	"sync"
+	"time"
 
 	"filippo.io/edwards25519"
 	"github.com/MixinNetwork/mixin/crypto"
@@ -105,6 +106,79 @@ func Garbage(r *vh.Rand) crypto.Key {
 	}
 }
 
+// ---- compact Coq literals (Model/Limbs.v) --------------------------------------
+
+var limbBase = new(big.Int).Lsh(big.NewInt(1), 60)
+
+func limbs(v *big.Int) string {
+	var sb strings.Builder
+	sb.WriteString("[")
+	x := new(big.Int).Set(v)
+	m := new(big.Int)
+	first := true
+	for x.Sign() > 0 {
+		x.DivMod(x, limbBase, m)
+		if !first {
+			sb.WriteString(";")
+		}
+		first = false
+		sb.WriteString(m.String())
+	}
+	sb.WriteString("]%uint63")
+	return sb.String()
+}
+
+// ZB prints an integer as a Z term (60-bit limbs of primitive integers).
+func ZB(v *big.Int) string {
+	if v.Sign() < 0 {
+		return vh.Z(v)
+	}
+	if v.Sign() == 0 {
+		return "0%Z"
+	}
+	return "(zb " + limbs(v) + ")"
+}
+
+// NB prints a non-negative integer as an N term.
+func NB(v *big.Int) string {
+	if v.Sign() == 0 {
+		return "0%N"
+	}
+	return "(nb " + limbs(v) + ")"
+}
+
+// NBytes prints a 32-byte string as the N holding its big-endian value.
+func NBytes(b []byte) string { return NB(BEInt(b)) }
+
+// BS prints a byte string as a list N term, packed 7 bytes per limb.
+func BS(b []byte) string {
+	if len(b) == 0 {
+		return "(@nil N)"
+	}
+	var sb strings.Builder
+	fmt.Fprintf(&sb, "(bs %d%%nat [", len(b))
+	for i := 0; i < len(b); i += 7 {
+		j := i + 7
+		if j > len(b) {
+			j = len(b)
+		}
+		if i > 0 {
+			sb.WriteString(";")
+		}
+		sb.WriteString(new(big.Int).SetBytes(b[i:j]).String())
+	}
+	sb.WriteString("]%uint63)")
+	return sb.String()
+}
+
+func ZList(vs []*big.Int) string {
+	el := make([]string, len(vs))
+	for i, v := range vs {
+		el[i] = ZB(v)
+	}
+	return vh.List(el, "Z")
+}
+
 // ---- tables -------------------------------------------------------------------
 
 type Tables struct {
@@ -145,7 +219,7 @@ func (t *Tables) EncTerm() string {
 	el := make([]string, 0, len(t.encK))
 	for _, k := range t.encK {
 		z, _ := new(big.Int).SetString(k, 10)
-		el = append(el, "("+vh.Z(z)+", "+vh.BytesAsN(t.encV[k])+")")
+		el = append(el, "("+ZB(z)+", "+NBytes(t.encV[k])+")")
 	}
 	return vh.List(el, "(Z * N)")
 }
@@ -153,7 +227,7 @@ func (t *Tables) EncTerm() string {
 func (t *Tables) HashTerm() string {
 	el := make([]string, 0, len(t.hK))
 	for _, k := range t.hK {
-		el = append(el, "("+vh.Bytes([]byte(k))+", "+vh.Z(t.hV[k])+")")
+		el = append(el, "("+BS([]byte(k))+", "+ZB(t.hV[k])+")")
 	}
 	return vh.List(el, "(list N * Z)")
 }
@@ -189,7 +263,14 @@ func Resolve(prop string, cases []*MCase) error {
 		pending[i] = i
 	}
 	for round := 0; round < 12 && len(pending) > 0; round++ {
-		const shardSize = 40
+		t0 := time.Now()
+		if os.Getenv("COSIH_TRACE") != "" {
+			defer func(r, n int) { fmt.Fprintf(os.Stderr, "resolve round %d: %d cases, %v\n", r, n, time.Since(t0)) }(round, len(pending))
+		}
+		shardSize := (len(pending) + 7) / 8
+		if shardSize < 25 {
+			shardSize = 25
+		}
 		type job struct{ idx []int }
 		var jobs []job
 		for i := 0; i < len(pending); i += shardSize {
@@ -226,6 +307,7 @@ func Resolve(prop string, cases []*MCase) error {
 				if len(ns) == 0 {
 					continue
 				}
+				final := false
 				for _, n := range ns {
 					switch n.tag {
 					case 0:
@@ -240,16 +322,20 @@ func Resolve(prop string, cases []*MCase) error {
 						}
 						cases[ci].T.PutPoint(z)
 					case 1:
-						b := make([]byte, len(n.payload))
-						for i, v := range n.payload {
-							b[i] = byte(v.Int64())
+						b, e := unpack(n.payload)
+						if e != nil {
+							return e
 						}
 						cases[ci].T.putHash(b)
+					case 2:
+						final = true
 					default:
 						return fmt.Errorf("bad need tag %d", n.tag)
 					}
 				}
-				next = append(next, ci)
+				if !final {
+					next = append(next, ci)
+				}
 			}
 		}
 		pending = next
@@ -258,6 +344,31 @@ func Resolve(prop string, cases []*MCase) error {
 		return fmt.Errorf("needs did not converge for %d cases", len(pending))
 	}
 	return nil
+}
+
+// unpack reverses Model/Limbs.v pack: length, then one number per 7 bytes (big-endian).
+func unpack(pl []*big.Int) ([]byte, error) {
+	if len(pl) == 0 {
+		return nil, fmt.Errorf("empty packed bytes")
+	}
+	n := int(pl[0].Int64())
+	b := make([]byte, 0, n)
+	for i := 0; i < n; i += 7 {
+		k := n - i
+		if k > 7 {
+			k = 7
+		}
+		if 1+i/7 >= len(pl) {
+			return nil, fmt.Errorf("short packed bytes")
+		}
+		chunk := pl[1+i/7].Bytes()
+		if len(chunk) > k {
+			return nil, fmt.Errorf("bad packed chunk")
+		}
+		b = append(b, make([]byte, k-len(chunk))...)
+		b = append(b, chunk...)
+	}
+	return b, nil
 }
 
 type need struct {
